@@ -57,7 +57,7 @@ func Main(args []string) int {
 	harness.SilenceStdout()
 	defer harness.RemoveScratch()
 	rep := explore.NewReporter(prop, "model_checking", f, harness.Out())
-	budget := 210 * time.Second
+	budget := 300 * time.Second
 	if f.Tier == "thorough" {
 		budget = 27 * time.Minute
 	}
